@@ -117,10 +117,39 @@ static void attack(const api_t *a, size_t ml, size_t al, int run, int full) {
     emit(a, &o, "extend", &ag, run);
     v_gfree(&g);
 }
+/* associated data of 4 GiB + 64 bytes (a sparse anonymous mapping: untouched pages read as zero and cost no memory): lengths whose
+ * upper 32 bits matter. One valid object per AEAD, then a bit flipped at 2^31 + 5 and at 2^32 + 47 of the associated data, presented
+ * to the combined and to the verify-only (m == NULL) decrypt forms. Same record format as the small cases. */
+#define HUGE(P, NM, KL, NL, TL) do { if (strstr(#P, "aes256gcm") && !crypto_aead_aes256gcm_is_available()) break; \
+    unsigned char k[32], n[32], m[48], c[48 + TL], out[48]; unsigned long long cl = 0, ml; vrng_bytes(&R, k, 32); vrng_bytes(&R, n, 32); vrng_bytes(&R, m, 48); \
+    ad[3] = 0x5a; ad[adl - 1] = 0xa5; P##_encrypt(c, &cl, m, 48, ad, adl, NULL, n, k); \
+    memset(out, 0x99, 48); ml = 777; int r0 = P##_decrypt(out, &ml, NULL, c, cl, ad, adl, n, k), r1 = P##_decrypt(NULL, NULL, NULL, c, cl, ad, adl, n, k); \
+    fprintf(v_out, "{\"e\":\"control\",\"api\":\"aead_" #NM "_hugead\",\"accepted\":%s,\"plain_ok\":%s}\n", (r0 == 0 && (r1 == 0 || !vo)) ? "true" : "false", (ml == 48 && !memcmp(out, m, 48)) ? "true" : "false"); \
+    long trials = 0, rej = 0, mz = 0, unt = 0, fil = 0, oth = 0, leak = 0; int fillb = -1; \
+    for (int w = 0; w < 2; w++) { unsigned long long pos = w ? 4294967296ULL + 47 : 2147483648ULL + 5; ad[pos] ^= 0x10; \
+        for (int form = 0; form < (vo ? 2 : 1); form++) { memset(out, 0x99, 48); ml = 777; \
+            int r = form == 0 ? P##_decrypt(out, &ml, NULL, c, cl, ad, adl, n, k) : P##_decrypt(NULL, &ml, NULL, c, cl, ad, adl, n, k); \
+            trials++; rej += r == -1; mz += ml == 0; int same = 1, cst = 1; for (int q = 0; q < 48; q++) { same &= out[q] == 0x99; cst &= out[q] == out[0]; } \
+            if (same) unt++; else if (!memcmp(out, m, 48)) leak++; else if (cst) { fil++; fillb = out[0]; } else oth++; } \
+        ad[pos] ^= 0x10; } \
+    fprintf(v_out, "{\"e\":\"forge\",\"api\":\"aead_" #NM "_hugead\",\"mlen\":48,\"adlen\":64,\"field\":\"ad_beyond_2^31\",\"run\":0,\"reports_len\":true,\"trials\":%ld,\"rejected\":%ld,\"mlen_zero\":%ld,\"untouched\":%ld,\"filled\":%ld,\"other\":%ld,\"leak\":%ld,\"fill\":[", trials, rej, mz, unt, fil, oth, leak); \
+    if (fillb >= 0) fprintf(v_out, "%d", fillb); fprintf(v_out, "]}\n"); fflush(v_out); } while (0)
+static int huge_mode(void) {
+    unsigned long long adl = 4294967296ULL + 64;
+    unsigned char *ad = (unsigned char *) mmap(NULL, (size_t) adl, PROT_READ | PROT_WRITE, MAP_PRIVATE | MAP_ANONYMOUS | MAP_NORESERVE, -1, 0);
+    if (ad == MAP_FAILED) { fprintf(v_out, "{\"e\":\"control\",\"api\":\"hugead_unavailable\",\"accepted\":true,\"plain_ok\":true}\n"); return 0; }
+    int vo = 1;
+    HUGE(crypto_aead_chacha20poly1305, chacha, 32, 8, 16); HUGE(crypto_aead_chacha20poly1305_ietf, ietf, 32, 12, 16); HUGE(crypto_aead_xchacha20poly1305_ietf, xchacha, 32, 24, 16);
+    HUGE(crypto_aead_aes256gcm, gcm, 32, 12, 16);
+    vo = 0; HUGE(crypto_aead_aegis128l, aegis128l, 16, 16, 32); HUGE(crypto_aead_aegis256, aegis256, 32, 32, 32);
+    munmap(ad, (size_t) adl);
+    return 0;
+}
 int main(int argc, char **argv) {
     if (argc < 4) return 3;
     vrng_seed(&R, strtoull(argv[1], NULL, 10), 2); int full = !strcmp(argv[2], "full");
     v_open(argv[3]); v_install_seeded_random(7); if (sodium_init() < 0) return 3; v_install_crash_handlers();
+    if (!strcmp(argv[2], "huge")) { huge_mode(); v_close(); return 0; }
     static const size_t ML[] = { 0, 1, 15, 16, 17, 63, 64, 65, 257 }, MLF[] = { 0, 1, 2, 15, 16, 17, 31, 32, 33, 47, 48, 63, 64, 65, 127, 128, 129, 255, 256, 257 };
     for (int a = 0; a < NAPI; a++) {
         if (!crypto_aead_aes256gcm_is_available() && strstr(apis[a].name, "aes256gcm")) continue;
